@@ -161,4 +161,17 @@ def plainA (D : Rat) : AGrid → Req → Arr
   | .sep R dirs, q => dirs.flatMap fun d => R.map fun r => modeQCut q.n q.m D r d.1 d.2 q.cutoff
   | .pts rs dirs, q => List.zipWith (fun r d => modeQCut q.n q.m D r d.1 d.2 q.cutoff) rs dirs
 
+/-! ## `make_zernike_basis` with a grid -/
+
+/-- the requests `make_zernike_basis(num, D, grid, starting_mode, ansi, radial_cutoff, ·)` makes, in order -/
+def basisReqs (ansi : Bool) (start num : Nat) (cutoff : Bool) : List Req :=
+  (basisModes ansi start num).map fun nm => ⟨nm.1, nm.2, cutoff⟩
+
+/-- `make_zernike_basis` with a grid: `cache = {} if use_cache else None`, then
+`modes = [f(i, D, polar_grid, radial_cutoff, cache) for i in range(start, start + num)]` — with a cache all modes are
+evaluated in index order against that one cache, without one every mode against no cache (an empty state). -/
+def basisA (ansi : Bool) (start num : Nat) (D : Rat) (g : AGrid) (cutoff useCache : Bool) : List Arr :=
+  if useCache then resultsA false D g (basisReqs ansi start num cutoff)
+  else (basisReqs ansi start num cutoff).map fun q => (modeA false D g q {}).1
+
 end HcipyVerif.Zernike
